@@ -34,6 +34,7 @@ ops and args (a REF is a habutax line name of the same form, or "form.line" when
   mulratefloor0 [A, "<rate>"]           max(0, A x rate)    ("Multiply ... If zero or less, enter a zero")
   mul        [A, B]                     product of two lines, nearest unit
   mulratecap [A, "<rate>", C]           min(A x rate, C)    ("Multiply line 9 by 25% (0.25) ... but do not enter more than line 6")
+  amount     [CONST]                    the amount the form prints for the filing status ("Enter the following amount for your filing status: ...")
   subroundup [A, B, unit]               0 if A - B <= 0, else A - B raised to the next multiple of unit ("If more than zero and not a multiple of $1,000, enter the next multiple of $1,000")
   ratiocap1  [A, B]                     min(1, A / B) to at least three places ("Divide line 5 by line 9 ... If the result is 1.000 or more, enter 1.000")
   smaller    [X, Y]    larger [X, Y]    X, Y: REF or CONST
@@ -469,6 +470,8 @@ class Resolver(object):
         if op == 'ratiocap1':
             a, b = self.one(raw['a']), self.one(raw['b'])
             return None if self.error else (op, [a, b])
+        if op == 'amount':
+            return op, [{'const_by_status': raw['const_by_status']}]
         if op == 'subroundup':
             a, b = self.one(raw['a']), self.one(raw['b'])
             return None if self.error else (op, [a, b, raw['unit']])
